@@ -171,7 +171,8 @@ def _op(g, dataset):
     k = g.weighted([("insert-data", 3), ("delete-data", 2), ("delete-where", 2), ("modify", 7), ("mgmt", 3 if dataset else 0), ("xfer", 3 if dataset else 0), ("mgmt1", 0 if dataset else 1.5)])
     if k == "mgmt1":
         # through a single graph: CLEAR / DROP of the one graph there is
-        return {"op": g.choice(["clear", "drop"]), "g": "DEFAULT", "silent": g.chance(0.3)}
+        # (ALL is that graph too, NAMED is nothing: a single graph is a graph store with a default graph only)
+        return {"op": g.choice(["clear", "drop"]), "g": g.choice(["DEFAULT", "DEFAULT", "ALL", "NAMED"]), "silent": g.chance(0.3)}
     if k == "insert-data":
         return {"op": k, "data": _data(g, dataset, True)}
     if k == "delete-data":
@@ -407,8 +408,8 @@ def execute(trace, ctx):
             continue
         ops = req["ops"]
         if single:
-            # through a single graph: what needs no dataset, plus CLEAR / DROP of the one graph there is (DEFAULT)
-            ops = [o for o in ops if (o["op"] in ("insert-data", "delete-data", "delete-where", "modify") and not _uses_dataset(o)) or (o["op"] in ("clear", "drop") and o["g"] == "DEFAULT")]
+            # through a single graph: what needs no dataset, plus CLEAR / DROP of the one graph there is (DEFAULT, ALL) or of nothing (NAMED)
+            ops = [o for o in ops if (o["op"] in ("insert-data", "delete-data", "delete-where", "modify") and not _uses_dataset(o)) or (o["op"] in ("clear", "drop") and o["g"] in ("DEFAULT", "ALL", "NAMED"))]
             if not ops:
                 continue
         if req.get("prefixed"):
